@@ -18,6 +18,7 @@ package accumulation
 //verif:init go/ast
 //verif:init go/scanner
 //verif:init go/parser
+//verif:init go/printer
 //verif:init unicode
 //verif:init regexp/syntax
 //verif:init regexp
